@@ -184,11 +184,11 @@ type Network struct {
 	conns     map[peer.ID][]*Conn
 }
 
-func (n *Network) LocalPeer() peer.ID               { return n.h.id }
-func (n *Network) Peerstore() peerstore.Peerstore   { return n.h.ps }
-func (n *Network) Notify(network.Notifiee)          {}
-func (n *Network) StopNotify(network.Notifiee)      {}
-func (n *Network) ClosePeer(p peer.ID) error        { n.SetConnected(p, false); return nil }
+func (n *Network) LocalPeer() peer.ID                 { return n.h.id }
+func (n *Network) Peerstore() peerstore.Peerstore     { return n.h.ps }
+func (n *Network) Notify(network.Notifiee)            {}
+func (n *Network) StopNotify(network.Notifiee)        {}
+func (n *Network) ClosePeer(p peer.ID) error          { n.SetConnected(p, false); return nil }
 func (n *Network) CanDial(peer.ID, ma.Multiaddr) bool { return true }
 
 func (n *Network) Connectedness(p peer.ID) network.Connectedness {
